@@ -1005,6 +1005,9 @@ func c18GenScript(r *Rand, cfgs []c18Cfg, hazard string) ([]c18Op, int) {
 }
 
 func c18Gen(r *Rand, tier string) []interface{} {
+	// util.NewRand(k) starts splitmix64 at k*gamma, so consecutive seeds yield the same stream
+	// shifted by one draw; re-seed from a mixed output to decorrelate VERIF_SEED values
+	r = NewRand(r.U64())
 	var out []interface{}
 	nCfg, perCfgScript, perCfgStatic, nBig, nExt, nBurst := 14, 70, 60, 16, 150, 6
 	if tier == "thorough" {
